@@ -123,6 +123,40 @@ Theorem C12_idempotent_after_one_r32 :
 Proof. intros derive ver m W N. exact (idempotent_after_one r32 derive ver m W N (cast_idem_on_r32 m)). Qed.
 Print Assumptions C12_idempotent_after_one_r32.
 
+(** The same facts for the parametric rounding [round_bin] of Io/F32.v ([f32] = round_bin 24 (-126) 127, [f64], and
+    [store32] = float64 then float32: the cast of the ingestion model of C14 / C20), wherever the rounding is defined
+    (normal range; outside it [round_bin] answers [None]): rounding twice is rounding once, rounding is monotone, the
+    float32 store is monotone.  Stated here because they are the float side of this property; C14 / C20 use them by name. *)
+From Leaspy Require Io.F32 Io.F32Proofs.
+Theorem C12_round_bin_idempotent : forall (p emin emax : Z) (q x : Q), (1 <= p)%Z ->
+  F32.round_bin p emin emax q = Some x -> F32.round_bin p emin emax x = Some x.
+Proof. exact F32Proofs.round_bin_idempotent. Qed.
+Print Assumptions C12_round_bin_idempotent.
+
+Theorem C12_round_bin_monotone : forall (p emin emax : Z) (q1 q2 x1 x2 : Q), (1 <= p)%Z -> (q1 <= q2)%Q ->
+  F32.round_bin p emin emax q1 = Some x1 -> F32.round_bin p emin emax q2 = Some x2 -> (x1 <= x2)%Q.
+Proof. exact F32Proofs.round_bin_monotone. Qed.
+Print Assumptions C12_round_bin_monotone.
+
+Theorem C12_store32_monotone : forall q1 q2 : Q,
+  (exists a b, F32.f64 q1 = Some a /\ F32.f32 a = Some b) -> (exists a b, F32.f64 q2 = Some a /\ F32.f32 a = Some b) ->
+  (q1 <= q2)%Q -> (F32.store32 q1 <= F32.store32 q2)%Q.
+Proof. exact F32Proofs.store32_monotone. Qed.
+Print Assumptions C12_store32_monotone.
+
+(** ... and both roundings are defined on [2^-126, 2^126) *)
+Theorem C12_store32_defined : forall q : Q, (F32.pow2 (-126) <= q)%Q -> (q < F32.pow2 126)%Q ->
+  exists a b, F32.f64 q = Some a /\ F32.f32 a = Some b.
+Proof. exact F32Proofs.store32_defined. Qed.
+Print Assumptions C12_store32_defined.
+
+(** The age collision of C14 (finding F9b, C14_roundtrip_collision_refuted) is not one witness: EVERY two ages
+    a <= b in [70, 70.000003] are stored as the single float32 age 70. *)
+Theorem C12_store32_collision_interval : forall a b : Q, (70 <= a)%Q -> (a <= b)%Q -> (b <= 70000003 # 1000000)%Q ->
+  (F32.store32 a == 70)%Q /\ (F32.store32 b == 70)%Q.
+Proof. exact F32Proofs.store32_collision_interval. Qed.
+Print Assumptions C12_store32_collision_interval.
+
 (** The unrestricted statements are false of the code (each witness is replayed on the implementation by the check). *)
 Theorem C12_instance_name_refuted :
   exists m, wf m /\ forall cast derive, exists d, save "2.0.2" m = Ok d /\ load cast derive d = Err ValueError.
